@@ -477,7 +477,7 @@ def _surr_multi_case(draw):
 
 @st.composite
 def _kwn_case(draw):
-    sc = draw(scen.toy_binary_scenario(cap=120, max_phases=3))
+    sc = draw(scen.toy_binary_scenario(cap=120, max_phases=3, allow_elastic=True))
     if len(sc["durations"]) == 1 and draw(st.integers(0, 4)) > 0:
         t = sc["durations"][0]
         sc["durations"] = [t * 0.3, t * 0.7]
